@@ -8,7 +8,7 @@ package agent
 // Representation invariant of the two job lists of an agent: they never share
 // a backing array (each is only ever produced by append on itself or by
 // re-slicing itself).
-//@ spec sepQueues(a) = len(a.Tasks) == 0 || len(a.JobQueue) == 0 || !samearray(a.Tasks, a.JobQueue)
+//@ spec sepQueues(a) = cap(a.Tasks) == 0 || cap(a.JobQueue) == 0 || !samearray(a.Tasks, a.JobQueue)
 
 //@ func (a *Agent) AddRequest(job Job) (r []Job)
 //@   requires nonnil: a != nil
@@ -161,3 +161,50 @@ package agent
 //@ func getWindowsVersionString(OsVersion []int) (r string)
 //@   requires five: len(OsVersion) >= 5
 //@   pure
+
+// ---------------------------------------------------------------------------
+// C15: the SOCKS5 handler installed by "socks add" (closure of TaskPrepare; free
+// variable: the cell holding the agent). RFC 1928: the request is only read when
+// the client offered "no authentication"; only CONNECT leads to a socket entry
+// and a connect task; the task carries exactly the parsed address type, address
+// and port, and the fresh socket id.
+//@ func (a *Agent) TaskPrepare$1(s *socks.Socks, conn net.Conn, a **Agent)
+//@   requires ctx: s != nil && conn != nil && *a != nil && !held((*a).SocksCliMtx)
+//@   requires entries: forall(i, 0, len((*a).SocksCli), (*a).SocksCli[i] != nil)
+//@   modifies *
+//@   guard-call noauth:  "ReadSocksHeader" exists(i, 0, len(NegotiationHeader.Methods), NegotiationHeader.Methods[i] == 0)
+//@   guard-call connect: "SocksClientAdd|AddJobToQueue" SocksHeader.Command == 1
+//@   guard-call task:    "AddJobToQueue" ConnectJob.Command == COMMAND_SOCKET && len(ConnectJob.Data) == 5 && typeis(ConnectJob.Data[0], int) && unboxed(ConnectJob.Data[0], int) == SOCKET_COMMAND_CONNECT && typeis(ConnectJob.Data[1], int32) && unboxed(ConnectJob.Data[1], int32) == SocketId && typeis(ConnectJob.Data[2], byte) && unboxed(ConnectJob.Data[2], byte) == SocksHeader.ATYP && typeis(ConnectJob.Data[3], []byte) && sameslice(unboxed(ConnectJob.Data[3], []byte), SocksHeader.IpDomain) && typeis(ConnectJob.Data[4], uint16) && unboxed(ConnectJob.Data[4], uint16) == SocksHeader.Port
+//@   loop "for _, Method := range NegotiationHeader.Methods"
+//@     invariant none: !HasNoAuth && forall(k, 0, idx__, NegotiationHeader.Methods[k] != 0)
+
+// ---------------------------------------------------------------------------
+// C04: enqueue. For a directly connected agent the job goes to the tail of its
+// own queue; for a pivot agent it is wrapped and goes to the first hop (C08).
+// Frame: the Tasks/JobQueue fields and the []Job arrays of any agent may change
+// (the pivot path writes the parent's queue); what is promised back is the
+// content of this agent's lists.
+//@ func (a *Agent) AddJobToQueue(job Job) (r []Job)
+//@   requires nonnil: a != nil
+//@   modifies a.Tasks, allof(Agent.JobQueue), allelems(Job)
+
+// Frame of the pivot path (C08 gives the functional clause): it appends to this
+// agent's display queue and to the first hop's queue.
+//@ func (a *Agent) PivotAddJob(job Job)
+//@   requires nonnil: a != nil && a.Pivots.Parent != nil
+//@   modifies allof(Agent.JobQueue), allelems(Job)
+
+// C04: a file pushed to the agent is cut into chunks that all carry the same
+// file id (fixed before the loop and returned) and the total size, and chunk k
+// holds FileData[k*MAX : min((k+1)*MAX, len)].
+//@ func (a *Agent) UploadMemFileInChunks(FileData []byte) (id uint32)
+//@   requires nonnil: a != nil
+//@   modifies a.Tasks, allof(Agent.JobQueue), allelems(Job)
+//@   ensures id: id == ID
+//@   guard-call shape: "AddJobToQueue" MemFileJob.Command == COMMAND_MEM_FILE && len(MemFileJob.Data) == 3
+//@   guard-call fileid: "AddJobToQueue" typeis(MemFileJob.Data[0], uint32) && unboxed(MemFileJob.Data[0], uint32) == ID
+//@   guard-call total: "AddJobToQueue" typeis(MemFileJob.Data[1], uint64) && unboxed(MemFileJob.Data[1], uint64) == len(FileData)
+//@   guard-call data: "AddJobToQueue" typeis(MemFileJob.Data[2], []byte) && sameslice(unboxed(MemFileJob.Data[2], []byte), FileData[start:min(start+DEMON_MAX_RESPONSE_LENGTH, len(FileData))])
+//@   loop "for start := 0; start <= FileSize; start += chunkSize"
+//@     invariant fixedid: ID == loopentry(ID)
+//@     invariant step: 0 <= start && start % DEMON_MAX_RESPONSE_LENGTH == 0 && FileSize == len(FileData)
